@@ -42,6 +42,13 @@ THEOREMS = [
     "Verif.C03.line_range_exact_code",
     "Verif.C03.frame_range_exact_code",
     "Verif.C03.sum_over_ranges_eq_image_code",
+    "Verif.C03.sum_over_ranges_eq_image_zero",
+    "Verif.C03.sum_over_frame_ranges_eq_image",
+    "Verif.C03.line_ranges_covered",
+    "Verif.C03.sum_over_ranges_longer_channel",
+    "Verif.C03.frame_dead_time_contiguous",
+    "Verif.C03.duration_lines",
+    "Verif.C03.pixel_ts_spec_duration",
 ]
 RULE = (
     "corpus (F11 input, split-mode mean witness) + malformed stream (empty wave, nothing used, no boundary, interior "
